@@ -442,7 +442,7 @@ pub fn run(ctx: &mut Ctx) {
         vec![Cer::Register { user: 0 }, Cer::Register { user: 1 }],
         vec![Cer::Assert { cred: 0, allow: false }, Cer::Assert { cred: 0, allow: true }],
     ];
-    let max_uy = ctx.tier.pick(2usize, 3usize);
+    let max_uy = ctx.tier.pick(3usize, 4usize);
     for lock in [Lock::ArcMutex, Lock::ArcRwLock] {
         for cers in &pairs {
             for sy in 0..=2usize {
@@ -473,21 +473,57 @@ pub fn run(ctx: &mut Ctx) {
     let cap = ctx.tier.pick(30_000u64, 2_000_000u64);
     let mut all_complete = true;
     let mut per_cfg = vec![];
-    for cfg in exhaustive_cfgs.iter().filter(|_| fs) {
-        let cap = if cfg.cers.len() > 2 { cap / 10 } else { cap };
-        match explore(ctx, cfg, cap) {
-            Ok((n, complete)) => {
-                all_complete &= complete;
-                per_cfg.push(json!({"lock": format!("{:?}", cfg.lock), "ceremonies": format!("{:?}", cfg.cers), "store_yields": cfg.store_yields, "uv_yields": cfg.uv_yields, "schedules": n, "exhaustive": complete}));
-            }
-            Err(e) => {
-                let (msg, sched) = match e.split_once(" schedule=") {
-                    Some((m, s)) => (m.to_string(), serde_json::from_str::<Vec<u8>>(s).unwrap_or_default()),
-                    None => (e.clone(), vec![]),
-                };
-                ctx.violation("exhaustive", json!((cfg, sched)), &msg);
-                break;
-            }
+    // configurations are independent: enumerate them on several threads, each with its own counters
+    let mut todo: Vec<&Config> = exhaustive_cfgs.iter().filter(|_| fs).collect();
+    // largest configurations first, handed out through a shared counter (work queue)
+    todo.sort_by_key(|c| std::cmp::Reverse(c.cers.len() * 100 + c.store_yields * 10 * c.cers.len() + c.uv_yields.iter().sum::<usize>() * 5));
+    let next = std::sync::atomic::AtomicUsize::new(0);
+    let threads = std::thread::available_parallelism().map(|n| n.get()).unwrap_or(4).clamp(1, 12);
+    let (id, tier, seed, strict) = (ctx.id, ctx.tier, ctx.seed, ctx.strict);
+    let results: Vec<(Ctx, Vec<Value>, bool, Option<(Config, String)>)> = std::thread::scope(|sc| {
+        let handles: Vec<_> = (0..threads)
+            .map(|_t| {
+                let (todo, next) = (&todo, &next);
+                std::thread::Builder::new()
+                    .stack_size(8 << 20)
+                    .spawn_scoped(sc, move || {
+                        let mut local = Ctx::new(id, tier, seed);
+                        local.strict = strict;
+                        let mut rows = vec![];
+                        let mut complete = true;
+                        let mut failure = None;
+                        loop {
+                            let i = next.fetch_add(1, std::sync::atomic::Ordering::SeqCst);
+                            let Some(cfg) = todo.get(i).copied() else { break };
+                            let cap = if cfg.cers.len() > 2 { cap / 10 } else { cap };
+                            match explore(&mut local, cfg, cap) {
+                                Ok((n, c)) => {
+                                    complete &= c;
+                                    rows.push(json!({"lock": format!("{:?}", cfg.lock), "ceremonies": format!("{:?}", cfg.cers), "store_yields": cfg.store_yields, "uv_yields": cfg.uv_yields, "schedules": n, "exhaustive": c}));
+                                }
+                                Err(e) => {
+                                    failure = Some((cfg.clone(), e));
+                                    break;
+                                }
+                            }
+                        }
+                        (local, rows, complete, failure)
+                    })
+                    .expect("spawn")
+            })
+            .collect();
+        handles.into_iter().map(|h| h.join().expect("explorer thread")).collect()
+    });
+    for (local, rows, complete, failure) in results {
+        ctx.absorb(local);
+        per_cfg.extend(rows);
+        all_complete &= complete;
+        if let Some((cfg, e)) = failure {
+            let (msg, sched) = match e.split_once(" schedule=") {
+                Some((m, s)) => (m.to_string(), serde_json::from_str::<Vec<u8>>(s).unwrap_or_default()),
+                None => (e.clone(), vec![]),
+            };
+            ctx.violation("exhaustive", json!((cfg, sched)), &msg);
         }
     }
     ctx.note("exhaustive_configurations", json!(per_cfg));
